@@ -47,6 +47,8 @@ META = {
             "Every computed failure probability between 1e-12 and 1-1e-12 is compared relatively with the closed form; the arbitrary-density variant must converge under grid refinement.", "3 C15"),
     "C16": ("exploration", "runtime monitoring: inverse/derivative/consistency relation monitors and an independent formula oracle on the real material-law classes",
             "Round trips, oddness, monotonicity, numerical derivative, Masing doubling, hysteresis closure, Hooke consistency between 1D/2D/3D laws and exact true-stress conversions over generated parameter sets; arguments generated through the strain.", "3 C16"),
+    "C17": ("exploration", "runtime monitoring: invariance relation monitors under random rotations and scalings, eigenvalue-definition oracle (numpy.linalg.eigvalsh), sign and accessor monitors with near-tie guards",
+            "Every equivalent stress of every generated tensor is compared with its eigenvalue definition, with its value in a rotated frame and under scaling; signs are judged away from ties only; NaN is never accepted.", "3 C17"),
     "C03": ("exploration", "runtime monitoring: metamorphic relation monitors between executions (refinement, negation, "
             "affine map, NaN insertion, Series index types), sanitizer replays",
             "Relations between pairs of real executions, each with its own counter; ties that rounding may flip are "
